@@ -1,5 +1,129 @@
+import Casket.Model.Lifecycle
+import Casket.Spec.Lifecycle
 import Driver.Proto
-/- Streams of C16 (stub: not built yet). -/
+/-
+Streams of C16.
+  c16.trace  op1 op2 …     one field per operation (see harness/streams/c16.go for the syntax)
+     out = segment|segment|…   segment = <res>;<events>;<wait bits>
+-/
 namespace Driver.C16
-def streams : List Driver.Stream := []
+open Casket.Lifecycle
+
+def parseSrv (s : String) : Option Srv := do
+  let cs := s.toList
+  let (cs, lf) := if cs.getLast? == some '!' then (cs.dropLast, true) else (cs, false)
+  match cs with
+  | k :: ds =>
+    let kind ← (match k with
+      | 'f' => some SrvKind.file
+      | 'n' => some SrvKind.nofile
+      | 'p' => some SrvKind.plain
+      | _ => none)
+    if ds.isEmpty then none else
+    let a ← (String.ofList ds).toNat?
+    pure { kind := kind, addr := a, listenFail := lf }
+  | [] => none
+
+def parseStage : String → Option Stage
+  | "-" => some .none
+  | "parse" => some .parse
+  | "setup" => some .setup
+  | "make" => some .make
+  | "first" => some .first
+  | "startup" => some .startup
+  | _ => none
+
+def parseCfg (s : String) : Option Cfg :=
+  match s.splitOn "/" with
+  | [sv, st, fl] => do
+    let servers ← if sv = "" then some [] else (sv.splitOn ",").mapM parseSrv
+    let stage ← parseStage st
+    if fl.toList.all (fun c => c == 'r' || c == 's') then
+      pure { servers := servers, fail := stage, restartErr := fl.toList.contains 'r', shutdownErr := fl.toList.contains 's' }
+    else none
+  | _ => none
+
+def parseOp (s : String) : Option Op :=
+  if s.startsWith "S:" then (parseCfg (s.drop 2).toString).map .start
+  else if s.startsWith "R:" then (parseCfg (s.drop 2).toString).map .restart
+  else if s = "X" then some .stopAll
+  else if s.startsWith "G" then
+    match (s.drop 1).toString.toNat? with
+    | some n => if 1 ≤ n ∧ n ≤ 64 then some (.signal n) else none
+    | none => none
+  else none
+
+def cbCode : CB → String
+  | .fs => "fs" | .su => "su" | .rs => "rs" | .rf => "rf" | .sd => "sd" | .fd => "fd"
+
+def showEvent : Event → String
+  | .cb k g i => s!"{cbCode k}{g}.{i}"
+  | .listen g k => s!"li{g}.{k}"
+  | .inherit g k => s!"in{g}.{k}"
+  | .serve g k => s!"sv{g}.{k}"
+  | .stop g k => s!"st{g}.{k}"
+
+def showRes : Res → String
+  | .ok => "ok" | .err => "err" | .noinst => "noinst"
+
+def showBits (b : List Bool) : String :=
+  if b.isEmpty then "-" else String.ofList (b.map fun x => if x then '1' else '0')
+
+def showSeg (x : Seg × List Bool) : String :=
+  s!"{showRes x.1.res};{",".intercalate (x.1.events.map showEvent)};{showBits x.2}"
+
+def traceModel (f : List String) : String :=
+  match f.mapM parseOp with
+  | none => "bad-case"
+  | some ops => "|".intercalate ((run ops).map showSeg)
+
+-- parsing of an observed answer
+
+def parseCb : String → Option CB
+  | "fs" => some .fs | "su" => some .su | "rs" => some .rs | "rf" => some .rf | "sd" => some .sd | "fd" => some .fd
+  | _ => none
+
+def parseEvent (s : String) : Option Event :=
+  let code := (s.take 2).toString
+  match ((s.drop 2).toString).splitOn "." with
+  | [g, i] => do
+    let g ← g.toNat?
+    let i ← i.toNat?
+    match code with
+    | "li" => some (.listen g i)
+    | "in" => some (.inherit g i)
+    | "sv" => some (.serve g i)
+    | "st" => some (.stop g i)
+    | c => (parseCb c).map fun k => .cb k g i
+  | _ => none
+
+def parseRes : String → Option Res
+  | "ok" => some .ok | "err" => some .err | "noinst" => some .noinst
+  | _ => none
+
+def parseBits (s : String) : Option (List Bool) :=
+  if s = "-" then some []
+  else if s.toList.all (fun c => c == '0' || c == '1') then some (s.toList.map (· == '1')) else none
+
+def parseSeg (s : String) : Option (Seg × List Bool) :=
+  match s.splitOn ";" with
+  | [r, e, b] => do
+    let r ← parseRes r
+    let e ← if e = "" then some [] else (e.splitOn ",").mapM parseEvent
+    let b ← parseBits b
+    pure (⟨r, e⟩, b)
+  | _ => none
+
+def traceJudge (f : List String) (out : String) : String :=
+  match f.mapM parseOp with
+  | none => if out = "bad-case" then "ok" else "bad:malformed-case-accepted:" ++ out
+  | some ops =>
+    match (out.splitOn "|").mapM parseSeg with
+    | none => "bad:unparsable:" ++ out
+    | some segs => Casket.LifecycleSpec.verdict ops segs
+
+def streams : List Driver.Stream := [
+  { name := "c16.trace", model := traceModel, judge := traceJudge }
+]
+
 end Driver.C16
